@@ -23,7 +23,7 @@ CLAIMS = {
     'C16': dict(
         category='exploration', technique='deterministic simulation: seeded query histories on a fresh lazily-parsed database (lookups in any order, interleaved full loads, mutation of handed-out copies) against a full-load reference; text/binary round trips through the simulated disk with short reads',
         engine='history-machine+E2-simfs',
-        text='(a) Lazy histories: a fresh EngineDB (fgd.lzma) receives seeded sequences of get_ent / EntityDef.engine_def for existing, alias, unknown and mixed-case names, get_classnames / engine_classes, an interleaved get_fgd and mutations of every copy handed out; each answer must equal the definition from a database loaded in full first (class, kind, alias flag, bases and whether they are resolved, keyvalues with type/display name/default/flags, inputs/outputs, resources). (b) The complete bundled database is exported to text on the simulated disk, parsed back and exported again (fixed point, fields equal up to the documented I/O type decay), and serialised/unserialised in the binary format. (c) Generated FGDs (every value type, empty display names/defaults/descriptions, strings over 1000 characters with and without spaces, tagged duplicates, bases, spawnflags, choices, resources) go through the text cycle under seeded options and short reads; generated engine-format FGDs large enough for the binary format are serialised, unserialised and queried lazily in a seeded order with the generating spec as ground truth. Strings include generated long texts whose escapes crowd around the exporter's 1000-character split points; returned copies are edited directly and through their .kv/.inp/.out views.',
+        text='(a) Lazy histories: a fresh EngineDB (fgd.lzma) receives seeded sequences of get_ent / EntityDef.engine_def for existing, alias, unknown and mixed-case names, get_classnames / engine_classes, an interleaved get_fgd and mutations of every copy handed out; each answer must equal the definition from a database loaded in full first (class, kind, alias flag, bases and whether they are resolved, keyvalues with type/display name/default/flags, inputs/outputs, resources). (b) The complete bundled database is exported to text on the simulated disk, parsed back and exported again (fixed point, fields equal up to the documented I/O type decay), and serialised/unserialised in the binary format. (c) Generated FGDs (every value type, empty display names/defaults/descriptions, strings over 1000 characters with and without spaces, tagged duplicates, bases, spawnflags, choices, resources) go through the text cycle under seeded options and short reads; generated engine-format FGDs large enough for the binary format are serialised, unserialised and queried lazily in a seeded order with the generating spec as ground truth. Strings include generated long texts whose escapes crowd around the 1000-character split points of the exporter; returned copies are edited directly and through their .kv/.inp/.out views.',
         note='Descriptions/helpers are not stored by the binary format and are generated empty there; boolean defaults blank vs 0 and spawnflags display names are normalised as the text syntax requires.', ref='5/C16'),
     'C05': dict(
         category='exploration', technique='seeded operation histories over an object pool with invariants evaluated after every step (claimed on the histories quantifier; no seam or fault exists for this property and the evidence says so)',
@@ -53,7 +53,7 @@ CLAIMS = {
     'C17': dict(
         category='exploration', technique='deterministic simulation: seeded collapse histories over shared cached templates, reference rotation/naming models as oracle, bounded liveness of collapse_all on recursive graphs measured on a deterministic step clock (collapse_one calls)',
         engine='history-machine+stepclock',
-        text='1-3 seeded templates (brushes with displacements/point data, point and brush entities of real FGD classes with position-, angle- and name-typed keys, outputs, $variables, nested func_instance entities with fixups) and 1-6 placements (identity / axis-aligned / arbitrary angles, three fixup styles, fixup tables) are collapsed in a seeded order through one cached InstanceFile per template. After every collapse: the template (export text, params, proxies, entity fixups) is unchanged; what the placement added equals what it adds when collapsed alone (order independence); the placed result equals the identity collapse transformed by an independent plain-math Source rotation (positions, texture axes with the offset law, displacement data, point data, orientation keys compared as matrices); names and $variables follow three-line reference functions. Recursive graphs (self / mutual, branching 1-2, default and small recur_limit) must end in a return or RecursionError within a budget of collapse_one calls, for every spelling (case, slashes) of the file references; a non-recursive chain must collapse completely with the prefix of the named top-level instances on every name. After each collapse no mutable object may be shared between the cached template and the copies, and the target's entity/brush/face IDs stay unique. Lights carry the negated-pitch key, judged against their rotated angles.',
+        text='1-3 seeded templates (brushes with displacements/point data, point and brush entities of real FGD classes with position-, angle- and name-typed keys, outputs, $variables, nested func_instance entities with fixups) and 1-6 placements (identity / axis-aligned / arbitrary angles, three fixup styles, fixup tables) are collapsed in a seeded order through one cached InstanceFile per template. After every collapse: the template (export text, params, proxies, entity fixups) is unchanged; what the placement added equals what it adds when collapsed alone (order independence); the placed result equals the identity collapse transformed by an independent plain-math Source rotation (positions, texture axes with the offset law, displacement data, point data, orientation keys compared as matrices); names and $variables follow three-line reference functions. Recursive graphs (self / mutual, branching 1-2, default and small recur_limit) must end in a return or RecursionError within a budget of collapse_one calls, for every spelling (case, slashes) of the file references; a non-recursive chain must collapse completely with the prefix of the named top-level instances on every name. After each collapse no mutable object may be shared between the cached template and the copies, and the entity, brush and face IDs of the target stay unique. Lights carry the negated-pitch key, judged against their rotated angles.',
         note='Pitch kept away from +-90 degrees; only the curated key types are judged; FGD database trusted as configuration.', ref='5/C17'),
     'C09': dict(
         category='exploration', technique='deterministic simulation: seeded object specs, copy, then a seeded history of in-place mutations on one side with the other side observed after every step; identity-based aliasing walker; operand snapshots for operators',
